@@ -151,6 +151,9 @@ def run_replay(ctx, binary, cases, crash_ok=False):
             raise vlib.InfraError("c20 harness returned no result")
         done = set(results)
         todo = [c for c in todo if c["id"] not in done]
+        if any(r.get("truncated") for r in recs):
+            results["truncated"] = True
+            break
         if todo and not crash and not any(r.get("abandon") for r in recs):
             raise vlib.InfraError("c20 harness stopped early without abandoning a case")
     return results
@@ -253,10 +256,11 @@ def validate_segments(ctx, segs, devs, strict, label, invariants=False):
               "SegFile": "segs.ndjson", "Strict": strict, "Guarded": not invariants}
     consts.update(devmap(devs))
     cfg = vlib.cfg_text(spec="TraceSpec", constants=consts,
-                        invariants=["Reached"] + (["Good"] if invariants else []), view="TView", check_deadlock=False)
+                        invariants=["Reached"] + (["Progress", "Good"] if invariants else []), view="TView", check_deadlock=False)
     r = vlib.tlc(ctx, "TraceReload", cfg, label=label, timeout=1500, expect_violation=invariants,
                  extra_files={"trace.ndjson": "\n".join(lines) + "\n", "segs.ndjson": "\n".join(bounds) + "\n"})
     acc = {c["accept"] for c in r.cases if "accept" in c}
+    r.stuck_at = max([c["at"] for c in r.cases if "at" in c] + [0])      # diagnosis runs: first event no behaviour emits
     return {k for k in range(len(segs)) if (k + 1) not in acc}, r
 
 
@@ -327,7 +331,7 @@ def emit_set(ctx, label, k, devs, mode="prefix"):
 def classify_replay(ctx, binary, cases, results, held, what):
     """Mismatches of the real code against the model it is held to are re-executed from a clean start."""
     byid = {c["id"]: c for c in cases}
-    bad = [r for r in results.values() if not r["ok"]]
+    bad = [r for r in results.values() if isinstance(r, dict) and not r["ok"]]
     unrepro = None
     for r in bad[:8]:
         c = byid[r["id"]]
@@ -421,15 +425,16 @@ def run(ctx):
         if len(results) != len(cases):
             raise vlib.InfraError("harness lost cases (%s)" % what)
         classify_replay(ctx, binary, cases, results, held, what)
-        ctx.cov["traces_validated_against_impl"] += len(cases)
-        ctx.cov["evaluations"] += sum(len(c["steps"]) for c in cases)
-        nontriv |= nontrivial_keys(cases)
+        ran = [c for c in cases if c["id"] in results]
+        ctx.cov["traces_validated_against_impl"] += len(ran)
+        ctx.cov["evaluations"] += sum(len(c["steps"]) for c in ran)
+        nontriv |= nontrivial_keys(ran)
         mid = cases[len(cases) // 2]
         ctx.sample({"set": what, "schedule": short(mid), "procd": mid["procd"], "writes": mid["writes"]})
         step = 1 if ctx.thorough else 4
         for c in cases[::step]:
-            r = results[c["id"]]
-            if not r.get("stuck"):
+            r = results.get(c["id"])
+            if r and r.get("trace") and not r.get("stuck"):
                 segs.append(segment_from_harness(r["trace"]))
                 seg_src.append({"kind": "replay", "set": what, "case": c})
     if ctx.violations:
@@ -448,7 +453,7 @@ def run(ctx):
         seg_src.append({"kind": "fuzz", "seed": r["seed"], "index": r["id"], "n": nf})
     if ctx.thorough:
         tsegs, cmd = go_test_traces(ctx, ["./internal/runtime/", "./internal/mtail/"],
-                                    skip="TestExamplePrograms|TestFilePipeStreamComparison|Benchmark")
+                                    skip="TestExamplePrograms|Comparison|Benchmark")
     else:
         tsegs, cmd = go_test_traces(ctx, ["./internal/runtime/", "./internal/mtail/"],
                                     run="TestNewProg|TestProgramReload|TestProgramUnload|TestLoadProg|TestCompileAndRun|TestNewRuntime")
@@ -489,7 +494,10 @@ def run(ctx):
         src = seg_src[k]
         # diagnosis: the segment alone, invariants as INVARIANTs
         _, dr = validate_segments(ctx, [segs[k]], held, not held, "trace-diagnose", invariants=True)
-        why = ("invariant %s violated" % dr.violated) if dr and dr.violated else "no behaviour of Reload.tla emits this trace"
+        at = dr.stuck_at if dr else 0
+        ev = segs[k][at - 1] if 0 < at <= len(segs[k]) else {}
+        why = ("invariant %s violated" % dr.violated) if dr and dr.violated else \
+            "no behaviour of Reload.tla emits event #%d %s" % (at, json.dumps(ev, sort_keys=True))
         if src["kind"] == "replay":
             c = src["case"]
             again = run_replay(ctx, binary, [c])[c["id"]]
